@@ -145,6 +145,8 @@ RuleVal(r, args, inst, oname, ci, couts, fc) ==
       [] r.k = "fstr"  -> VFStr(inst, oname \o ".dat", fc)
       [] r.k = "fmstruct" -> VObj(("a" :> VObj(("f" :> VFile(inst, oname \o "_a", fc)) @@ ("n" :> VInt(1))))
                                   @@ ("b" :> VObj(("f" :> VFile(inst, oname \o "_b", fc)) @@ ("n" :> VInt(2)))))
+      [] r.k = "fmstructk" -> VObj([x \in {r.keys[i] : i \in DOMAIN r.keys} |->        \* such a map with the given keys
+                                       VObj(("f" :> VFile(inst, oname \o "_" \o x, fc)) @@ ("n" :> VInt(1)))])
       [] r.k = "fastruct" -> VArr(<<VObj(("f" :> VFile(inst, oname \o "_0", fc)) @@ ("n" :> VInt(1))),
                                     VObj(("f" :> VFile(inst, oname \o "_1", fc)) @@ ("n" :> VInt(2)))>>)
       [] r.k = "files11" -> VArr([i \in 1..11 |-> VFile(inst, oname \o "_" \o ToString(i - 1), fc)])
